@@ -343,6 +343,67 @@ if list(r) != want: REPRODUCED('Path.reversed() = %%r' %% r)
         R.sample({'n': n, 'reversed': [x.k for x in rv if isinstance(x, Piece)]})
 
 
+def fam_reversed_after_query(R, n):
+    """Path.reversed() of a path whose length cache is populated: T2t/point of the result vs a fresh Path of the same segments"""
+    from svgpathtools.path import Path
+    import svgpathtools.path as P
+    from .c05 import StubSeg
+    P.np = NPProxy()
+    R.bound(n=n)
+    R.stub('segment.length -> free positive real; segment.point -> uninterpreted; segment.reversed() -> a stub of the same length')
+
+    class RS(StubSeg):
+        def reversed(self):
+            r = RS.__new__(RS)
+            r.__dict__.update(self.__dict__)
+            r.start, r.end = self.end, self.start
+            fx, fy = self.fx, self.fy
+            r.fx = lambda t: fx(1 - t)
+            r.fy = lambda t: fy(1 - t)
+            return r
+
+    def run():
+        segs = [RS(k) for k in range(n)]
+        c = Ctx.cur
+        c.assume(*[s_.l.e > 0 for s_ in segs])
+        T = symr('T')
+        c.assume(T.e > 0, T.e < 1)
+        p = Path(*segs)
+        p.length()
+        p.point(T)
+        r = p.reversed()
+        fresh = Path(*list(r))
+        return segs, T, r.T2t(T), fresh.T2t(T), r.length(), fresh.length()
+
+    for ctx, (kind, val) in explore(run, maxpaths=2000):
+        R.path(ctx)
+        if kind != 'ok':
+            R.unexpected(ctx, 'unexpected %s %r' % (kind, val))
+            continue
+        segs, T, (k1, t1), (k2, t2), l1, l2 = val
+
+        def cex(m):
+            ls = [mval(m, s_.l) for s_ in segs]
+            return {'cls': 'Path.reversed() of a queried path', 'inputs': {'lengths': ls, 'T': mval(m, T)}, 'script': REPLAY_REVQ % (ls, mval(m, T))}
+        R.ob('n%d.reversed-after-query' % n, ctx, z3.And(z3.BoolVal(k1 == k2), req(t1, t2), req(l1, l2)), cex=cex,
+             robust=[z3.And(*[z3.And(s_.l.e >= 1, s_.l.e <= 9) for s_ in segs])])
+        if R.paths % 10 == 1:
+            R.sample({'n': n, 'segment': k1})
+
+
+REPLAY_REVQ = '''
+ls = %r; T = %r
+segs = []; x = 0.0
+for i, l in enumerate(ls):
+    segs.append(Line(complex(x, 0), complex(x + l, 0))); x += l
+p = Path(*segs)
+p.length(); p.point(T)
+r = p.reversed()
+for TT in (T, 0.1, 0.35, 0.6, 0.9):
+    if abs(r.point(TT) - p.point(1 - TT)) > 1e-9 * (1 + x): REPRODUCED('after length(): reversed().point(%%r) = %%r but point(%%r) = %%r (segment lengths %%r)' %% (TT, r.point(TT), 1 - TT, p.point(1 - TT), ls))
+'''
+
+
 def families(tier):
     M = 'vf.props.c09'
     fams = [('segment-deg%d' % d, M, 'fam_segment', {'deg': d}) for d in (1, 2, 3)]
@@ -353,6 +414,8 @@ def families(tier):
         fams.append(('arc-cropped-flags-sweep%d' % sw, 'vf.props.c04', 'fam_cropped_flags', {'sw': sw}))
     for la, sw in ((False, True), (True, False)) if tier == 'quick' else ((False, False), (False, True), (True, False), (True, True)):
         fams.append(('arc-reversed-p37-%d%d' % (la, sw), 'vf.props.c04', 'fam_reversed_cropped', {'rot': 'p37', 'la': la, 'sw': sw}))
+    for n in (2, 3):
+        fams.append(('path-reversed-after-query-n%d' % n, M, 'fam_reversed_after_query', {'n': n}))
     for n in (1, 2, 3):
         fams.append(('path-cropped-n%d' % n, M, 'fam_path_cropped', {'n': n, 'wrap': False}))
         fams.append(('path-reversed-n%d' % n, M, 'fam_path_reversed', {'n': n}))
